@@ -12,6 +12,7 @@ from .config import (
     DOF_FALLBACK,
 )
 from .state_manager import StateManager
+from . import _verif
 
 
 class SamplerCore:
@@ -123,6 +124,7 @@ class SamplerCore:
 
         self.n_total = int(n_total)
         self.t0 = t0
+        _verif.emit("run_begin", core=self, resumed=resume_state_path is not None)
 
         # Initialize progress bar for this run
         from .tools import ProgressBar
@@ -138,11 +140,13 @@ class SamplerCore:
         # Run PS loop (adaptive warmup and annealing)
         while self._not_termination():
             self.execute_iteration(save_every=save_every, t0=t0)
+        _verif.emit("loop_exit", core=self)
 
         # Compute final evidence
         _, logz = self.state.compute_logw_and_logz(1.0)
         self.state.set_current("logz", logz)
         self.logz_err = None
+        _verif.emit("run_end", core=self)
 
         # Save final state
         if save_every is not None:
@@ -165,16 +169,22 @@ class SamplerCore:
                 )
 
         # Execute pipeline: reweight → train → resample → mutate
+        _verif.emit("iter_begin", core=self)
         weights = self.reweighter.run()
+        _verif.emit("reweighted", core=self, weights=weights)
         mode_stats = self.trainer.run(weights)
+        _verif.emit("trained", core=self, weights=weights, mode_stats=mode_stats)
         self.resampler.run(weights)
+        _verif.emit("resampled", core=self, weights=weights)
         self.mutator.run(mode_stats)
+        _verif.emit("mutated", core=self, mode_stats=mode_stats)
 
         # Update progress bar
         self._update_progress_bar()
 
         # Save particles to history
         self.state.commit_current_to_history()
+        _verif.emit("committed", core=self)
 
         return self.state.get_current()
 
@@ -245,6 +255,7 @@ class SamplerCore:
         import dill
 
         path = Path(path)
+        _verif.emit("save_begin", core=self, path=path)
         path.parent.mkdir(parents=True, exist_ok=True)
 
         # Get state dict
@@ -271,6 +282,7 @@ class SamplerCore:
         # Save to file
         with open(path, "wb") as f:
             dill.dump(d, f)
+        _verif.emit("save_end", core=self, path=path)
 
     def load_sampler_state(self, path: Union[str, Path]):
         """Load state (replaces Sampler.load_state - 28 lines)."""
@@ -306,6 +318,7 @@ class SamplerCore:
         # Set random seed
         if "random_state" in d and d["random_state"] is not None:
             np.random.seed(d["random_state"])
+        _verif.emit("load_end", core=self, path=path, loaded=d)
 
     def _log_like(self, x):
         """Compute log likelihood (replaces Sampler._log_like - 54 lines)."""
